@@ -85,6 +85,7 @@ LawWrongMsgOnlyFillsI == Both(LawWrongMsgOnlyFills)
 LawMonotoneI == Both(LawMonotone)
 LawDuplicateI == Both(LawDuplicate)
 LawSingleI == Both(LawSingle)
+LawNotationI == IsCase /\ c.n <= 2 => LawNotation(A, NoMsg)
 LawCodeRefinesI == Both(LawCodeRefines)
 LawCodeCallsI == Both(LawCodeCalls)
 =============================================================================
